@@ -92,12 +92,28 @@ func runC12(c *Ctx) {
 	delExp := wtxFn(c, "C12-R2", "DeleteExpiredLockedOutputs")
 	list := wtxFn(c, "C12-R2", "ListLockedOutputs")
 	if isLocked != nil && delExp != nil && list != nil {
-		cmps := findTimeCmps(p, []*ssa.Function{isLocked, delExp, list})
+		// the sweep's / the listing's test may sit in a same-package helper they call (extracted "collect" step)
+		roleOf := map[*ssa.Function]*ssa.Function{isLocked: isLocked, delExp: delExp, list: list}
+		tops := []*ssa.Function{isLocked, delExp, list}
+		for _, top := range []*ssa.Function{delExp, list} {
+			for _, ci := range callsOf(top) {
+				g := ci.Common().StaticCallee()
+				if g == nil || g.Pkg != top.Pkg || roleOf[g] != nil || len(g.Blocks) == 0 {
+					continue
+				}
+				if len(findTimeCmps(p, []*ssa.Function{g})) > 0 {
+					roleOf[g] = top
+					tops = append(tops, g)
+				}
+			}
+		}
+		cmps := findTimeCmps(p, tops)
 		c.Floor("C12-R2", "clock-vs-expiry comparisons", len(cmps), 3)
 		for _, tc := range cmps {
-			c.Check("C12-R2", "expiry-relation:"+fnName(outermost(tc.fn)), tc.call.Pos(), tc.canon == "now<exp",
+			role := roleOf[outermost(tc.fn)]
+			c.Check("C12-R2", "expiry-relation:"+fnName(role), tc.call.Pos(), tc.canon == "now<exp",
 				"lease expiry test is not the common relation 'still leased iff now is before expiry' (normalised: "+tc.canon+"): balance, listing and sweeping would flip at different instants")
-			switch outermost(tc.fn) {
+			switch role {
 			case isLocked:
 				// returns with third result true only on the now<exp edge
 				for _, b := range tc.fn.Blocks {
@@ -114,7 +130,7 @@ func runC12(c *Ctx) {
 					}
 				}
 			case delExp, list:
-				wantEdge := outermost(tc.fn) == list // list keeps un-expired; sweep collects expired
+				wantEdge := role == list // list keeps un-expired; sweep collects expired
 				// the append (store to captured slice) is reachable only on the right edge
 				n := 0
 				for _, b := range tc.fn.Blocks {
@@ -132,11 +148,11 @@ func runC12(c *Ctx) {
 						if wantEdge {
 							what = "ListLockedOutputs lists a lease without the 'still leased' outcome"
 						}
-						c.Check("C12-R2", "acts-on-right-side:"+fnName(outermost(tc.fn)), st.Pos(), ok2, what)
+						c.Check("C12-R2", "acts-on-right-side:"+fnName(role), st.Pos(), ok2, what)
 					}
 				}
 				if n == 0 {
-					c.Check("C12-R2", "acts-on-right-side:"+fnName(outermost(tc.fn)), tc.fn.Pos(), false, "no collection into the result found (undecided)")
+					c.Check("C12-R2", "acts-on-right-side:"+fnName(role), tc.fn.Pos(), false, "no collection into the result found (undecided)")
 				}
 			}
 		}
